@@ -94,6 +94,7 @@ type zOp struct {
 	Pres    [][]zPresCred `json:"pres,omitempty"` // per presentation: its credentials as parsed from the envelope
 	Maps    []interface{} `json:"maps,omitempty"` // map views of decoded values (index 0 unused)
 	EnvErr  bool       `json:"envErr,omitempty"` // ParseEnvelope failed
+	Entries []string   `json:"entries,omitempty"` // array envelopes: per presented entry "vp" | "junk" (go-did's verdict on that entry alone)
 	Signer  []bool     `json:"signer,omitempty"` // per presentation: PresentationSigner succeeded
 	Sub     []zMapping `json:"sub,omitempty"`    // descriptor_map of the submission under test
 	Decode  []zDecode  `json:"decode,omitempty"`
@@ -728,6 +729,23 @@ func zValidateErrClass(err error) string {
 
 func (r *zRun) opValidate(envRaw string, sub []zMapping, mut string) {
 	op := zOp{Op: "validate", EnvRaw: envRaw, Sub: sub, Mut: mut}
+	// array envelope: what go-did says about each presented entry on its own (independent of parseJSONArrayEnvelope)
+	var rawEntries []json.RawMessage
+	if strings.HasPrefix(strings.TrimSpace(envRaw), "[") && json.Unmarshal([]byte(envRaw), &rawEntries) == nil {
+		op.Entries = []string{}
+		for _, re := range rawEntries {
+			text := string(re)
+			var str string
+			if json.Unmarshal(re, &str) == nil && strings.HasPrefix(strings.TrimSpace(text), "\"") {
+				text = str
+			}
+			if _, err := vc.ParseVerifiablePresentation(text); err == nil {
+				op.Entries = append(op.Entries, "vp")
+			} else {
+				op.Entries = append(op.Entries, "junk")
+			}
+		}
+	}
 	env, err := ParseEnvelope([]byte(envRaw))
 	if err != nil {
 		op.EnvErr = true
@@ -1779,6 +1797,37 @@ func (r *zRun) walletFlow(rng *rand.Rand, w []int, n int) {
 		}
 		r.opValidate(arr, nested, "array-nested")
 		r.opValidate(arr, sub, "array-flat")
+		// junk slots (null, number, boolean, array, empty string / object) at every position of the array envelope,
+		// with descriptor maps addressing each index
+		if rng.Intn(2) == 0 {
+			junk := []string{"null", "5", "true", "[1]", `""`, "{}", `"not.a.jwt"`}
+			parts := []string{}
+			quote := func(v string) string {
+				if strings.HasPrefix(v, "{") {
+					return v
+				}
+				q, _ := json.Marshal(v)
+				return string(q)
+			}
+			for _, v := range vps {
+				parts = append(parts, quote(v))
+			}
+			at := rng.Intn(len(parts) + 1)
+			parts = append(parts[:at], append([]string{junk[rng.Intn(len(junk))]}, parts[at:]...)...)
+			if rng.Intn(3) == 0 {
+				at2 := rng.Intn(len(parts) + 1)
+				parts = append(parts[:at2], append([]string{junk[rng.Intn(len(junk))]}, parts[at2:]...)...)
+			}
+			junkArr := "[" + strings.Join(parts, ",") + "]"
+			for k := 0; k < len(parts); k++ {
+				addressed := []zMapping{}
+				for _, m := range sub {
+					inner := m
+					addressed = append(addressed, zMapping{Id: m.Id, Fmt: "ldp_vp", Path: "$[" + strconv.Itoa(k) + "]", Nested: &inner})
+				}
+				r.opValidate(junkArr, addressed, "array-junk-slot")
+			}
+		}
 		if len(nested) > 0 {
 			am := zMutations(rng, nested, len(sign.VerifiableCredentials))
 			for _, k := range []string{"nested-under-credential-dangling", "nested-under-credential-to-subject", "nested-under-credential-to-string", "nested-under-credential-self"} {
